@@ -116,6 +116,28 @@ pub struct World {
     pub obs: u64,
     /// device calls issued by each executed step (C09 enumerates fault positions 1..=n)
     pub step_calls: Vec<u64>,
+    /// C14 recording
+    pub crash: CrashLog,
+}
+
+#[derive(Clone, Debug)]
+pub struct FlushPoint {
+    pub widx: usize,
+    pub epoch: u32,
+    pub node: NodeId,
+    pub path: String,
+    pub content: Vec<u8>,
+    pub step: usize,
+}
+
+#[derive(Default)]
+pub struct CrashLog {
+    pub start: Option<Store>,
+    pub writes: Vec<WriteRec>,
+    pub flush_points: Vec<FlushPoint>,
+    /// (write index, node): from this point on the node is no longer tracked
+    pub untrack: Vec<(usize, NodeId)>,
+    pub final_epoch: u32,
 }
 
 pub enum SessionEnd {
